@@ -15,14 +15,34 @@ func init() { register("C07", "exploration", runC07) }
 var c07Leaves = []*spec.V{spec.NilV, spec.B(true), spec.B(false), spec.I(0), spec.I(1), spec.F(0), spec.F(1), spec.S(""), spec.S("1")}
 var c07Keys = []string{"a", "b", "c"}
 
-const c07Variants = 3
+const c07Variants = 5
 
-var c07VariantNames = []string{"keys inserted in listed order", "keys inserted in reverse order", "dirty history (extra key set then unset, values overwritten)"}
+var c07VariantNames = []string{"keys inserted in listed order", "keys inserted in reverse order", "dirty history (extra key set then unset, values overwritten)", "lists built from runs of equal elements by NewListOf (shared field objects) joined by Concat", "nested containers are user types embedding List/Object (derived structures)"}
 
 // buildVariant builds a specification with a chosen insertion history for every object in it.
 func buildVariant(v *spec.V, variant int) interface{} {
+	if variant == 4 {
+		return buildDerived(v, 0)
+	}
 	switch v.K {
 	case spec.Lst:
+		if variant == 3 {
+			l := at.NewList()
+			for i := 0; i < len(v.L); {
+				j := i
+				for j < len(v.L) && !v.L[i].IsContainer() && spec.Equal(v.L[j], v.L[i]) {
+					j++
+				}
+				if j == i {
+					l = l.Concat(at.NewList(buildVariant(v.L[i], variant)))
+					i++
+					continue
+				}
+				l = l.Concat(at.NewListOf(v.L[i].Native(), j-i))
+				i = j
+			}
+			return l
+		}
 		l := at.NewList()
 		for _, e := range v.L {
 			l.Add(buildVariant(e, variant))
@@ -54,6 +74,31 @@ func buildVariant(v *spec.V, variant int) interface{} {
 	default:
 		return v.Native()
 	}
+}
+
+// buildDerived builds the tree with every NESTED container wrapped in a user type that embeds it.
+func buildDerived(v *spec.V, depth int) interface{} {
+	switch v.K {
+	case spec.Lst:
+		vals := make([]interface{}, len(v.L))
+		for i, e := range v.L {
+			vals[i] = buildDerived(e, depth+1)
+		}
+		if depth > 0 {
+			return newDL(vals...)
+		}
+		return at.NewList(vals...)
+	case spec.Obj:
+		var kv []interface{}
+		for _, e := range v.KV {
+			kv = append(kv, e.K, buildDerived(e.V, depth+1))
+		}
+		if depth > 0 {
+			return newDO(kv...)
+		}
+		return at.NewObject(kv...)
+	}
+	return v.Native()
 }
 
 func equalsRoot(a, b interface{}) (res bool, panicked bool, pv interface{}) {
@@ -162,7 +207,7 @@ func runC07(c *ev.Ctx) {
 				}
 			}
 			va := set[i]
-			a := buildVariant(va, 0)
+			a := buildVariant(va, int(i%2)*3) // receivers alternate between plain and shared-field construction
 			for j := int64(0); j < n; j++ {
 				vb := set[j]
 				want := spec.Equal(va, vb)
@@ -253,7 +298,7 @@ func runC07(c *ev.Ctx) {
 						if dir == 1 {
 							x, y = ed, v
 						}
-						a, b := buildVariant(x, 0), buildVariant(y, vr)
+						a, b := buildVariant(x, 3*((vr+dir)%2)), buildVariant(y, vr)
 						got, pn, pv := equalsRoot(a, b)
 						bad := pn || got != want
 						if !bad {
